@@ -161,3 +161,28 @@ package bchutil
 //@ func bchutil.(*Tx).Index
 //@   ensures result == t.txIndex
 //@   modifies nothing
+
+// ---- amounts (C17)
+
+//@ func bchutil.round
+//@   ensures !isnan(f) && fp_abs(f) < 4611686018427387904 ==> result == fp_toint(fp_rna(f))
+//@   modifies nothing
+
+//@ func bchutil.NewAmount
+//@   ensures (isnan(f) || isinf(f)) ==> err != nil && result0 == 0
+//@   ensures !(isnan(f) || isinf(f)) ==> err == nil
+//@   ensures !(isnan(f) || isinf(f)) && fp_abs(f * 100000000) < 4611686018427387904 ==> result0 == fp_toint(fp_rna(f * 100000000))
+//@   modifies nothing
+
+//@ func bchutil.(Amount).MulF64
+//@   ensures !isnan(fp_of(a) * f) && fp_abs(fp_of(a) * f) < 4611686018427387904 ==> result == fp_toint(fp_rna(fp_of(a) * f))
+//@   modifies nothing
+
+//@ func bchutil.(Amount).ToUnit
+//@   requires -1000 <= int(u) && int(u) <= 1000
+//@   ensures result == fp_of(a) / math.pow10(int(u) + 8)
+//@   modifies nothing
+
+//@ func bchutil.(Amount).ToBCH
+//@   ensures result == fp_of(a) / math.pow10(8)
+//@   modifies nothing
